@@ -339,6 +339,42 @@ func c05Plumbing(c *Ctx, r *Report) {
 				} else {
 					r.fail("R5.2", id, "wrong arguments: "+what, c.pos(call.Pos()), "got "+strings.Join(got, ", ")+", want ..."+strings.Join(wantArgs, ", "), "plumbing:"+calleeName)
 				}
+				// the question is put to the response that was handed in, not to something built around it
+				if cm.IsInvoke() {
+					rv := cm.Value
+					for {
+						switch x := rv.(type) {
+						case *ssa.ChangeInterface:
+							rv = x.X
+							continue
+						case *ssa.UnOp:
+							if x.Op == token.MUL {
+								rv = x.X
+								continue
+							}
+						}
+						break
+					}
+					_, isParam := rv.(*ssa.Parameter)
+					_, isFree := rv.(*ssa.FreeVar)
+					if al, isAlloc := rv.(*ssa.Alloc); isAlloc {
+						// the spilled parameter
+						if refs := al.Referrers(); refs != nil {
+							for _, rf := range *refs {
+								if st, ok := rf.(*ssa.Store); ok && st.Addr == ssa.Value(al) {
+									if _, ok := st.Val.(*ssa.Parameter); ok {
+										isParam = true
+									}
+								}
+							}
+						}
+					}
+					if isParam || isFree {
+						r.ok("R5.2", id, calleeName+" is asked of the response handed in", c.pos(call.Pos()), true)
+					} else {
+						r.fail("R5.2", id, calleeName+" is asked of a value built around the response (an adapter in between can answer differently)", c.pos(call.Pos()), accessPath(cm.Value), "plumbing-receiver:"+calleeName)
+					}
+				}
 			}
 		}
 		if !found {
@@ -1649,6 +1685,13 @@ func builderReadOnly(c *Ctx, r *Report, rule string) {
 			}
 		}
 	}
+	// (4) no element address of a slice is kept while that slice can still grow (stale pointer after
+	// append reallocates: what is added through it is lost)
+	for fn := range t.funcs {
+		for _, in := range stalePointers(fn) {
+			t.add(fn, "R13.2", "the address of a slice element is kept while the slice can still be extended by append (after a reallocation it points into the old backing array)", in.Pos(), "stale-element-pointer")
+		}
+	}
 	seen := map[string]bool{}
 	for _, f := range t.findings {
 		if strings.HasPrefix(f.sig, "param-store:") {
@@ -1804,7 +1847,62 @@ func c06Comparator(c *Ctx, r *Report) {
 			break
 		}
 	}
+	// ... and what was sorted is what the batching loop walks: the slice handed to sort and the slice
+	// whose elements the loop reads are the same variable (sorting a copy leaves the walk unsorted)
+	if call, ok := sortCall.(*ssa.Call); ok && len(call.Common().Args) > 0 {
+		sorted := call.Common().Args[0]
+		for {
+			switch x := sorted.(type) {
+			case *ssa.MakeInterface:
+				sorted = x.X
+				continue
+			case *ssa.ChangeType:
+				sorted = x.X
+				continue
+			case *ssa.Convert:
+				sorted = x.X
+				continue
+			}
+			break
+		}
+		want := accessPath(sorted)
+		walked, same := 0, 0
+		for _, b := range bt.Blocks {
+			if !blockReaches(b, b) {
+				continue
+			}
+			for _, in := range b.Instrs {
+				ia, ok := in.(*ssa.IndexAddr)
+				if !ok {
+					continue
+				}
+				sl, ok := ia.X.Type().Underlying().(*types.Slice)
+				if !ok || !types.Identical(sl.Elem(), slElem(sortedElem(sorted))) {
+					continue
+				}
+				walked++
+				if ia.X == sorted || accessPath(ia.X) == want {
+					same++
+				}
+			}
+		}
+		r.instance("R6.9", 1)
+		if walked > 0 && same == walked {
+			r.ok("R6.9", fnID(bt), "the batching loop walks the very slice that was sorted", c.pos(sortCall.Pos()), true)
+		} else {
+			r.fail("R6.9", fnID(bt), "the batching loop walks a slice other than the one handed to sort (a sorted copy leaves the walk in definition order)", c.pos(sortCall.Pos()), fmt.Sprintf("sorted %s; %d of %d element reads in loops use it", want, same, walked), "sorted-slice-not-walked")
+		}
+	}
 	if !okAny {
 		r.fail("R6.9", id, "the comparator given to sort is not the ascending numeric order of the slot address for all values: the batching loop can meet a lower address after a higher one", c.pos(less.Pos()), detail, "comparator-not-ascending")
 	}
+}
+
+func sortedElem(v ssa.Value) types.Type { return v.Type() }
+
+func slElem(t types.Type) types.Type {
+	if sl, ok := t.Underlying().(*types.Slice); ok {
+		return sl.Elem()
+	}
+	return t
 }
